@@ -348,7 +348,29 @@ class FlowTable (EventMixin):
       elif e.effective_priority > priority:
         continue
       else:
-        if e.is_matched_by(in_entry.match) or in_entry.is_matched_by(e.match):
+        if self._matches_overlap(e.match, in_entry.match):
           return True
 
     return False
+
+  @staticmethod
+  def _matches_overlap (a, b):
+    """
+    Tests whether some packet could match both a and b
+
+    That is the case unless a field they both specify differs (for the IP
+    addresses: differs within the shorter of the two prefixes).
+    """
+    for f in ('in_port', 'dl_src', 'dl_dst', 'dl_vlan', 'dl_vlan_pcp',
+              'dl_type', 'nw_tos', 'nw_proto', 'tp_src', 'tp_dst'):
+      va = getattr(a, f)
+      vb = getattr(b, f)
+      if va is not None and vb is not None and va != vb:
+        return False
+    for ga,gb in ((a.get_nw_src(), b.get_nw_src()),
+                  (a.get_nw_dst(), b.get_nw_dst())):
+      if ga[0] is None or gb[0] is None: continue
+      bits = min(ga[1], gb[1])
+      if IPAddr(ga[0]).get_network(bits) != IPAddr(gb[0]).get_network(bits):
+        return False
+    return True
